@@ -46,10 +46,17 @@ def gen_plan(seed, tier):
   desc = gen_dataset(r, dmax=5, big=True)
   desc["tuples"] = r.randint(max(10, 2 * desc["d"]), 45)
   d = desc["d"]
+  small = substream(seed, "c15-small").random() < 0.15
+  if small:
+    # few triplets (but >= n_features): mini-batches, drawn with replacement, may
+    # legally be larger than the whole triplet set
+    desc["tuples"] = desc["d"] + substream(seed, "c15-small2").randint(1, 4)
   oi = r.choice([1, 2, 5, 10, 20])
   p = dict(beta=r.choice([1e-5, 1e-3, 1e-2, 0.1]), gamma=r.choice([5e-3, 5e-2, 0.5, 5.0]),
            output_iter=oi, max_iter=oi * r.randint(1, 6) + r.choice([0, 0, 0, 1, 3]),
            batch_size=r.choice([1, 2, 5, 10]))
+  if small:
+    p["batch_size"] = r.choice([10, 20, 7])
   bk = r.choice(["array", "array", "generated"])
   if bk == "array":
     nb = r.randint(max(2, d), 3 * d + 2)
@@ -155,8 +162,13 @@ def run_plan(plan):
       raise Inconclusive("no_batch_draws_observed")
     flat = np.concatenate(draws)
     if flat.size != max_iter * batch:
-      raise Inconclusive("batch_draw_count_unexpected")
-    batches = flat.reshape(max_iter, batch)
+      if flat.size % max_iter or flat.size == 0:
+        raise Inconclusive("batch_draw_count_unexpected")
+      # not max_iter x batch_size indices were drawn: take the batches as they
+      # were drawn but keep the documented batch_size as the divisor of the
+      # averaged hinge sub-gradient
+      cov["batches_of_other_size_drawn"] += 1
+    batches = flat.reshape(max_iter, flat.size // max_iter)
     ev["stream"] = digest(batches)
     cov["draw_program_" + (rsd.get("script") or rsd["kind"])] += 1
     # ---- the basis in use
@@ -176,7 +188,7 @@ def run_plan(plan):
                         "generated basis rows are not unit norm: %r" % np.round(norms, 6).tolist()[:8])
       cov["generated_basis_checked"] += 1
     # ---- the reference scheme on the recorded draws
-    R = ref.run(T, B, batches, gp["beta"], gp["gamma"], gp["output_iter"])
+    R = ref.run(T, B, batches, gp["beta"], gp["gamma"], gp["output_iter"], batch_size=batch)
     if R["w"] is None:
       raise Inconclusive("no_checkpoint")
     M = est.get_mahalanobis_matrix()
